@@ -1,8 +1,95 @@
-(* C05 — big integers compute like mathematical integers: property theorems (statements pinned in PINS.json). *)
+(* C05 — big integers compute exactly like mathematical integers.  Property theorems only: each is closed by
+   [exact] of a lemma proved in Proofs/, and followed by Print Assumptions.  Statements are pinned (PINS.json).
+   Model: coq/Model/Big.v (limb vectors, carry/borrow chains, schoolbook multiplication with u64
+   accumulators, bitwise quotient search, sign dispatch).  [bval] is the mathematical value, [wf] the
+   representation invariant (limbs < 2^32, no leading zero limb, zero non-negative). *)
 From Coq Require Import List NArith ZArith Bool.
-From HV Require Import Model.Big Proofs.BigBase.
-Open Scope N_scope.
+Import ListNotations.
+From HV Require Import Model.Big Proofs.BigSpec Proofs.BigAll.
+From HV Require Proofs.BigMul Proofs.BigDiv.
+Open Scope Z_scope.
 
-Theorem C05_add_core_val : forall a b, lval (add_core a b) = lval a + lval b.
-Proof. exact add_core_val. Qed.
-Print Assumptions C05_add_core_val.
+Theorem C05_add : forall a b, wf a -> wf b -> wf (badd a b) /\ bval (badd a b) = bval a + bval b.
+Proof. exact badd_t. Qed.
+Print Assumptions C05_add.
+
+Theorem C05_sub : forall a b, wf a -> wf b -> wf (bsub a b) /\ bval (bsub a b) = bval a - bval b.
+Proof. exact bsub_t. Qed.
+Print Assumptions C05_sub.
+
+Theorem C05_mul : forall a b, wf a -> wf b -> wf (bmul a b) /\ bval (bmul a b) = bval a * bval b.
+Proof. exact bmul_t. Qed.
+Print Assumptions C05_mul.
+
+(* truncating division; remainder has the sign of the dividend *)
+Theorem C05_div : forall a b, wf a -> wf b -> bval b <> 0 -> wf (bdiv a b) /\ bval (bdiv a b) = Z.quot (bval a) (bval b).
+Proof. exact bdiv_t. Qed.
+Print Assumptions C05_div.
+
+Theorem C05_rem : forall a b, wf a -> wf b -> bval b <> 0 -> wf (brem a b) /\ bval (brem a b) = Z.rem (bval a) (bval b).
+Proof. exact brem_t. Qed.
+Print Assumptions C05_rem.
+
+Theorem C05_neg : forall a, wf a -> wf (bneg a) /\ bval (bneg a) = - bval a.
+Proof. exact bneg_t. Qed.
+Print Assumptions C05_neg.
+
+Theorem C05_eq : forall a b, wf a -> wf b -> (beq a b = true <-> bval a = bval b).
+Proof. exact beq_t. Qed.
+Print Assumptions C05_eq.
+
+Theorem C05_cmp : forall a b, wf a -> wf b -> bcmp a b = (bval a ?= bval b).
+Proof. exact bcmp_t. Qed.
+Print Assumptions C05_cmp.
+
+(* normalised form: the representation is unique, so results are THE normalised representation *)
+Theorem C05_normal_form_unique : forall a b, wf a -> wf b -> bval a = bval b -> a = b.
+Proof. exact wf_unique_t. Qed.
+Print Assumptions C05_normal_form_unique.
+
+(* gcd: the Euclid loop terminates within its fuel and returns a value of the right magnitude *)
+Theorem C05_gcd : forall a b, wf a -> wf b ->
+  exists g, bgcd a b = Some g /\ wf g /\ Z.abs (bval g) = Z.gcd (bval a) (bval b).
+Proof. exact bgcd_t. Qed.
+Print Assumptions C05_gcd.
+
+(* construction from a machine integer (isize: |n| <= 2^63 < 2^127) *)
+Theorem C05_new : forall n, Z.abs n < 2 ^ 127 -> wf (bnew n) /\ bval (bnew n) = n.
+Proof. exact bnew_t. Qed.
+Print Assumptions C05_new.
+
+Theorem C05_from_vec : forall v, limbs_ok v -> v <> [] -> wf (from_vec v) /\ bval (from_vec v) = Z.of_N (lval v).
+Proof. exact from_vec_t. Qed.
+Print Assumptions C05_from_vec.
+
+(* machine-arithmetic side conditions of the Rust code: the u64 accumulators of mult_core never reach 2^64
+   (no debug-build overflow panic, no release-build wrap) and the final `as u32` cast is lossless *)
+Theorem C05_mult_no_overflow : forall a b, limbs_ok a -> limbs_ok b ->
+  Forall (fun x => (x < U64)%N) (BigMul.mult_trace a b) /\ mult_acc a b = mult_core a b.
+Proof. intros a b Ha Hb. split; [exact (BigMul.mult_no_overflow a b Ha Hb) | exact (proj2 (proj2 (proj2 (mult_core_t a b Ha Hb))))]. Qed.
+Print Assumptions C05_mult_no_overflow.
+
+(* every intermediate quotient vector of div_core keeps its limbs below 2^32 (`v[i] += 1 << j` cannot overflow) *)
+Theorem C05_div_no_overflow : forall a b, limbs_ok a -> limbs_ok b -> a <> [] -> b <> [] -> lval b <> 0%N ->
+  forall p s, div_order (Nat.max (length a) (length b)) = p ++ s ->
+  limbs_ok (fold_left (div_step a b) p (repeat 0%N (Nat.max (length a) (length b)))).
+Proof. exact (BigDiv.div_prefix_ok mult_core_t less_core_t). Qed.
+Print Assumptions C05_div_no_overflow.
+
+(* sub_core never indexes out of bounds on normalised operands *)
+Theorem C05_sub_in_bounds : forall a b, normal a -> normal b -> sub_core_safe a b.
+Proof. exact sub_core_safe_t. Qed.
+Print Assumptions C05_sub_in_bounds.
+
+(* the pinned tree (before fix 2ad6713) violated C05_new: witness n = 2^32 + 5 *)
+Theorem C05_new_pre_fix_refuted : exists n, Z.abs n < 2 ^ 127 /\ bval (new_pre_fix n) <> n.
+Proof. exists 4294967301. split; [reflexivity | vm_compute; discriminate]. Qed.
+Print Assumptions C05_new_pre_fix_refuted.
+
+(* non-vacuity: multi-limb, negative and zero values are well-formed (decided by the boolean mirror [wfb]) *)
+Example C05_wf_examples :
+  wfb (mkbig false [4294967295%N; 0%N; 7%N]) = true /\ wfb (mkbig true [0%N]) = true /\
+  wfb (bnew (-9223372036854775808)) = true /\
+  bval (bdiv (mkbig false [5%N; 1%N]) (mkbig true [3%N])) = -1431655767.
+Proof. vm_compute. repeat split; reflexivity. Qed.
+Print Assumptions C05_wf_examples.
